@@ -99,6 +99,15 @@ fn case(t0: &mut Tape, w: &Worker) -> CaseResult {
     args.extend(filter.args());
     if mode == SMode::Write {
         args.extend(["-o".to_string(), w.path("out.raw").display().to_string()]);
+    } else if filter != Filter::None && ot.chance(1, 4) {
+        // an output destination next to a check / view is documented as ignored: the statistics stay the same
+        args.extend(["-o".to_string(), w.path("ignored_out.raw").display().to_string()]);
+        out.labels.push("opt:ignored_output".into());
+    }
+    if ot.chance(1, 5) {
+        let v = *ot.pick(&["0", "2", "3"]);
+        args.extend(["-v".to_string(), v.to_string()]);
+        out.labels.push(format!("opt:-v{v}"));
     }
     args.extend(stats_args(&sp, toml_fmt));
     let mut case = CliCase::new(w, bytes.clone());
